@@ -163,10 +163,7 @@ def run(prog, rep, tier):
                              ('Display', [b for b in prog.bodies.values() if b['kind'] == 'fn' and b['item'] == 'fmt' and b.get('impl')
                                           and b['impl'].get('self') == nm and b['impl'].get('trait') == 'std::fmt::Display'])):
             for b in bodies:
-                for bb in b['blocks']:
-                    t = bb['t']
-                    if t and t['k'] == 'call' and t['callee'] and t['callee'].get('item') == 'new' and 'fmt::Arguments' in (t['callee'].get('name') or ''):
-                        tm[(nm, kind)] = util.const_bytes_of_operand(prog, b, t['args'][0])
+                tm[(nm, kind)] = util.fmt_signature(prog, b)[0]
     rep.check(len(tm) == 4 and len(set(tm.values())) == 1 and None not in tm.values(), 'S1-key-is-shown-address', 'key-format#display-equals-serialize',
               'crates/rs1090/src/decode/mod.rs', 'Display and Serialize of ICAO / IcaoParity use different templates: %s' % {k: v and v.hex() for k, v in tm.items()},
               sample={'template_hex': next(iter(tm.values())).hex() if tm and next(iter(tm.values())) else None})
@@ -302,13 +299,23 @@ def run(prog, rep, tier):
                             steps = D.place_steps(prog, b, s2['rv']['pl'])
                             if steps and steps[-1][0] == 'snapshot::StateVectors' and steps[-1][2] == 'hist':
                                 hist.setdefault(norm(b['name']), set()).add(t['callee']['item'])
-    rep.floor('functions touching state_vectors', len(seen), 7)
-    for fn in sorted(set(seen) | set(spec['map_calls'])):
-        got = seen.get(fn)
-        exp = spec['map_calls'].get(fn, {}).get('methods')
-        rep.check(got is not None and exp is not None and set(got) <= set(exp), 'S4-who-touches-the-table', 'state_vectors#' + fn, fn,
-                  'direct uses of state_vectors: %s; reviewed table allows %s' % (got, exp),
-                  sample={'fn': fn, 'methods': got} if fn.startswith('snapshot') else None, nontrivial=bool(got))
+    # the table is compared by function (closures folded into the function that contains them) and by capability
+    # class of the map method, not by the literal method name: values_mut -> values, or iter_mut().map(..) -> a for
+    # loop over values_mut(), keeps what the function can do to the table unchanged
+    seen_r, spec_r = {}, {}
+    for fn, ms in seen.items():
+        seen_r.setdefault(root_fn(fn), set()).update(ms)
+    for fn, e in spec['map_calls'].items():
+        spec_r.setdefault(root_fn(fn), set()).update(e.get('methods') or [])
+    rep.floor('functions touching state_vectors', len(seen_r), 7)
+    for fn in sorted(set(seen_r) | set(spec_r)):
+        got = seen_r.get(fn)
+        exp = spec_r.get(fn)
+        ok = got is not None and exp is not None and caps(got) <= granted(exp)
+        rep.check(ok, 'S4-who-touches-the-table', 'state_vectors#' + fn, fn,
+                  'direct uses of state_vectors: %s (capabilities %s); reviewed table allows %s (capabilities %s)'
+                  % (got and sorted(got), got is not None and sorted(caps(got)), exp and sorted(exp), exp is not None and sorted(granted(exp))),
+                  sample={'fn': fn, 'methods': sorted(got), 'capabilities': sorted(caps(got))} if got and fn.startswith('snapshot') else None, nontrivial=bool(got))
     # a writer outside the reviewed roots is fine when it is a helper reachable only from them (every call site of
     # it, transitively, sits in a reviewed root): extracting a function out of update_snapshot keeps the rule quiet
     callers = {}
@@ -335,10 +342,39 @@ def run(prog, rep, tier):
               'Snapshot fields are written in %s, which are neither reviewed writers (%s) nor helpers called only from them (callers: %s)'
               % (outside, sorted(roots), {w: sorted(callers.get(w, [])) for w in outside}))
     rep.floor('Snapshot field writers', len(writers), 2)
-    for fn in sorted(set(hist) | set(spec['history_mutators'])):
-        got = sorted(hist.get(fn, []))
-        rep.check(set(got) <= set(spec['history_mutators'].get(fn, [])), 'S4-who-touches-the-table', 'history#' + fn, fn,
-                  'history mutated through %s; reviewed: %s' % (got, spec['history_mutators'].get(fn)))
+    hist_r, hspec_r = {}, {}
+    for fn, ms in hist.items():
+        hist_r.setdefault(root_fn(fn), set()).update(ms)
+    for fn, ms in spec['history_mutators'].items():
+        hspec_r.setdefault(root_fn(fn), set()).update(ms)
+    for fn in sorted(set(hist_r) | set(hspec_r)):
+        got = sorted(hist_r.get(fn, []))
+        rep.check(set(got) <= hspec_r.get(fn, set()), 'S4-who-touches-the-table', 'history#' + fn, fn,
+                  'history mutated through %s; reviewed: %s' % (got, sorted(hspec_r.get(fn, []))))
+
+
+# capability classes of the BTreeMap methods. A method not listed is its own class: it has to be reviewed by name.
+CAPS = {'read': ('get', 'values', 'keys', 'iter', 'len', 'is_empty', 'contains_key', 'first_key_value', 'last_key_value', 'range', 'get_key_value'),
+        'item-mut': ('get_mut', 'values_mut', 'iter_mut', 'range_mut'),
+        'remove': ('remove', 'remove_entry', 'retain', 'clear', 'pop_first', 'pop_last'),
+        'insert': ('insert', 'entry')}
+
+
+def caps(methods):
+    out = set()
+    for m in methods:
+        c = next((c for c, ms in CAPS.items() if m in ms), None)
+        out.add(c or 'method:' + m)
+    return out
+
+
+def granted(methods):
+    """a reviewed function may always read the table it was reviewed for; item-mut includes read"""
+    return caps(methods) | {'read'}
+
+
+def root_fn(n):
+    return re.sub(r'(::\{closure\})+$', '', norm(n))
 
 
 def norm(n):
